@@ -345,8 +345,11 @@ func regSig(prop, name string, msgs []string) string {
 }
 
 func engineRegSched(f *rep.Flags, res *rep.Result) {
-	adaptation.SetPluginRegistrationTimeout(3 * time.Second)
-	adaptation.SetPluginRequestTimeout(3 * time.Second)
+	// handshakes are real round trips: under heavy machine load they can take long; no timeout of the
+	// code under test may fire in these scenarios (it would change the accept thread's path)
+	vsched.WatchdogLimit = 150 * time.Second
+	adaptation.SetPluginRegistrationTimeout(90 * time.Second)
+	adaptation.SetPluginRequestTimeout(90 * time.Second)
 	tier := 0
 	if f.Thorough() {
 		tier = 1
@@ -405,8 +408,8 @@ func replayRegSched(f *rep.Flags) int {
 	if err := json.Unmarshal(b, &w); err != nil {
 		rep.Fatal(f, "%v", err)
 	}
-	adaptation.SetPluginRegistrationTimeout(3 * time.Second)
-	adaptation.SetPluginRequestTimeout(3 * time.Second)
+	adaptation.SetPluginRegistrationTimeout(90 * time.Second)
+	adaptation.SetPluginRequestTimeout(90 * time.Second)
 	for i := range regScens {
 		if regScens[i].Name == w.Replay.Scenario {
 			ex, v, o := regScens[i].scenario().Replay(w.Replay.Choices)
